@@ -239,7 +239,10 @@ def main(tier, seed, replay, t0):
     # ---- (B2) simulated histories at real widths
     nsim = 40 if quick else 400
     recs, st2 = tlc_machine("MC_Machine_sim", workdir, simulate=nsim, seed=seed)
-    hists = [dict(r, g="h") for k, r in recs if k == "H"]
+    # second batch restricted to the operations that can leave stale bits above BITS (sign fill, complement, rotation,
+    # whole-limb shifts, products, narrowing conversions), at the non-aligned widths
+    recs2, st3 = tlc_machine("MC_Machine_simfocus", workdir, simulate=nsim, seed=seed + 17)
+    hists = [dict(r, g="h") for k, r in recs if k == "H"] + [dict(r, g="h") for k, r in recs2 if k == "H"]
     sp, ep = os.path.join(workdir, "h_scen.ndjson"), os.path.join(workdir, "h_ev.ndjson")
     with open(sp, "w") as fh:
         for h in hists:
